@@ -96,7 +96,7 @@ CHECKS = {
                required_probes=["overlapped", "txn-committed"]),
     "C05": chk([e1("seq", 1)], SEQ_RULE, "Seeded histories; Dataset::validate plus manifest invariants after every commit."),
     "C06": chk([e1("seq", 1)], SEQ_RULE, "Seeded histories; every old version re-read by a fresh party after later steps must equal its snapshot; disk-level monitor that no referenced object changes bytes."),
-    "C07": chk([e1("seq", 1)], SEQ_RULE, "Seeded histories with restores; restored version equals the model of the old version; row ids never re-issued."),
+    "C07": chk([e1("seq", 2), e1("conc", 1, stable=1)], SEQ_RULE, "Seeded histories with restores; restored version equals the model of the old version; row ids never re-issued. Second batch: restores racing with appends/updates/merges in concurrent rounds on stable-row-id tables, followed by further writes; serial-replay and row-identity oracles."),
     "C08": chk([e1("maint", 2), e1("maint", 1, race=1)],
                "one run = a seeded history with simulated wall-clock jumps (hours to 8 days), tags, writers crashed at a chosen storage call (orphan files) and "
                "cleanup under random policies (older_than 0 h .. 30 d, before_version, retain_n, delete_unverified on/off); the race batch ends with a writer "
